@@ -11,10 +11,12 @@ import (
 	"bytes"
 	"crypto"
 	"crypto/rand"
+	"crypto/sha256"
 	_ "crypto/sha256"
 	"encoding/asn1"
 	"encoding/json"
 	"fmt"
+	"github.com/cloudflare/circl/abe/cpabe/tkn20"
 	"github.com/cloudflare/circl/pki"
 	"os"
 	"time"
@@ -66,6 +68,10 @@ type famDef struct {
 	kinds []string
 	build func(seed uint64) *shared
 	slow  bool
+	// late: the expected values are computed AFTER the scheduled run, sequentially, on an
+	// object set equal to the shared one (same per-run labels), so that work the library does
+	// once per process and label is first done inside the scheduled tasks
+	late bool
 }
 
 func b2(ok bool) []byte {
@@ -307,6 +313,105 @@ func registryFam() famDef {
 	}}
 }
 
+// tknFam: one CP-ABE authority (public key, master secret, one attribute key) shared by
+// encryptors, the key issuer and a decryptor. Attribute labels are drawn per run, so the
+// library's per-label work is first done inside the scheduled tasks.
+var tknAuth struct {
+	pk  *tkn20.PublicKey
+	msk *tkn20.SystemSecretKey
+}
+
+// buildCounter numbers the object sets built within one run (reference sets first, the
+// shared set last); exec resets it.
+var buildCounter int
+
+func tknFam() famDef {
+	return famDef{name: "tkn20", late: true, kinds: []string{"fresh", "encrypt", "fresh", "keygen", "decrypt", "could"}, build: func(seed uint64) *shared {
+		if tknAuth.pk == nil {
+			pk, msk, err := tkn20.Setup(core.NewStream(4242))
+			if err != nil {
+				panic("HARNESS: tkn20.Setup")
+			}
+			tknAuth.pk, tknAuth.msk = &pk, &msk
+		}
+		phase := buildCounter
+		buildCounter++
+		la, lb := fmt.Sprintf("l%016x", seed), fmt.Sprintf("m%016x", seed)
+		var pol tkn20.Policy
+		if pol.FromString(la+": x and not "+lb+": y") != nil {
+			panic("HARNESS: policy")
+		}
+		var attrs tkn20.Attributes
+		attrs.FromMap(map[string]string{la: "x", lb: "z"})
+		ak, err := tknAuth.msk.KeyGen(core.NewStream(seed+1), attrs)
+		if err != nil {
+			panic("HARNESS: KeyGen")
+		}
+		ct0, err := tknAuth.pk.Encrypt(core.NewStream(seed+2), pol, []byte("message"))
+		if err != nil {
+			panic("HARNESS: Encrypt")
+		}
+		return &shared{ops: map[string]func(uint64) []byte{
+			// a label nobody in this process has used yet (it differs between the reference
+			// object sets and the shared one; what is returned does not depend on its name):
+			// encrypt under it, issue a key for it, decrypt
+			"fresh": func(a uint64) []byte {
+				lf := fmt.Sprintf("f%016x%02x%02x", seed, a&0xff, phase&0xff)
+				var pl tkn20.Policy
+				if pl.FromString(lf+": v") != nil {
+					return []byte("policy-err")
+				}
+				ct, err := tknAuth.pk.Encrypt(core.NewStream(seed+10+a), pl, msgOf(a))
+				if err != nil {
+					return []byte("err")
+				}
+				var at tkn20.Attributes
+				at.FromMap(map[string]string{lf: "v"})
+				k, err := tknAuth.msk.KeyGen(core.NewStream(seed+30+a), at)
+				if err != nil {
+					return []byte("keygen-err")
+				}
+				pt, err := k.Decrypt(ct)
+				if err != nil {
+					return []byte("undecryptable")
+				}
+				h := sha256.Sum256(ct)
+				return append(h[:], pt...)
+			},
+			"encrypt": func(a uint64) []byte {
+				ct, err := tknAuth.pk.Encrypt(core.NewStream(seed+10+a), pol, msgOf(a))
+				if err != nil {
+					return []byte("err")
+				}
+				pt, err := ak.Decrypt(ct)
+				if err != nil {
+					return []byte("undecryptable")
+				}
+				return append(ct[len(ct)-16:len(ct):len(ct)], pt...)
+			},
+			"keygen": func(a uint64) []byte {
+				k, err := tknAuth.msk.KeyGen(core.NewStream(seed+20+a), attrs)
+				if err != nil {
+					return []byte("err")
+				}
+				pt, err := k.Decrypt(ct0)
+				if err != nil {
+					return []byte("unusable:" + err.Error())
+				}
+				return pt
+			},
+			"decrypt": func(uint64) []byte {
+				pt, err := ak.Decrypt(ct0)
+				if err != nil {
+					return []byte("err:" + err.Error())
+				}
+				return pt
+			},
+			"could": func(uint64) []byte { return b2(attrs.CouldDecrypt(ct0)) },
+		}}
+	}}
+}
+
 func prioFam() famDef {
 	return famDef{name: "prio3/count", kinds: []string{"shard", "shard", "params"}, build: func(seed uint64) *shared {
 		c, err := count.New(2, []byte("ctx"))
@@ -371,6 +476,7 @@ func init() {
 		}
 	}
 	reg(registryFam(), 6)
+	reg(tknFam(), 2)
 	reg(groupFam(group.P256, "P256"), 6)
 	reg(groupFam(group.Ristretto255, "ristretto255"), 4)
 	// a Prio3 instance keeps a mutable XOF state and is owned by one party: it is neither a
@@ -396,7 +502,9 @@ func gen(r *core.PRNG, tier string) any {
 	ns := r.Pick(1, 4, 4, 2)
 	for i := 0; i < ns; i++ {
 		s := SwitchSpec{Task: r.Intn(nt), To: r.Intn(nt)}
-		switch r.Pick(3, 4, 4) {
+		switch r.Pick(3, 4, 4, 4) {
+		case 3:
+			s.Mode, s.Num = "sync", uint64(r.Intn(64))
 		case 0:
 			s.Mode, s.Num = "frac", uint64(r.Intn(1000000))
 		case 1:
@@ -430,7 +538,7 @@ func directed(tier string) []any {
 			lim = 3 // the race build is slower: fewer directed plans per family so that every family is reached
 		}
 		for k := 0; k < lim; k++ {
-			for _, mode := range []string{"pw", "early"} {
+			for _, mode := range []string{"pw", "early", "sync"} {
 				num := uint64(k)
 				if mode == "early" {
 					num = uint64(1 + k*3)
@@ -477,6 +585,7 @@ func exec(planJSON []byte, run *core.Run) {
 	run.T(f.name)
 	nt := len(p.Tasks)
 	// --- reference: every task alone, on its own fresh (equal) objects ---
+	buildCounter = 0
 	ref := make([][][]byte, nt)
 	refObjs := make([]*shared, nt)
 	for t := range p.Tasks {
@@ -528,6 +637,13 @@ func exec(planJSON []byte, run *core.Run) {
 			}
 			at = pws[int(s.Num)%len(pws)] + 1 // the statement after the shared write
 			run.Probe("preempt-right-after-shared-write")
+		case "sync":
+			pss := count0.PSSteps[s.Task]
+			if len(pss) == 0 {
+				continue
+			}
+			at = pss[int(s.Num)%len(pss)] + 1 // the statement after the one holding the sync / atomic call
+			run.Probe("preempt-right-after-sync-operation")
 		default:
 			run.Bad("switch mode")
 			return
@@ -558,6 +674,17 @@ func exec(planJSON []byte, run *core.Run) {
 		run.Faults["schedule:preemption"] += int(res.Fired) - 1
 	}
 	run.Event("sched", "run", nt, res.Fired, res.Steps)
+	if f.late {
+		buildCounter = nt // the same per-run labels as the shared set
+		lateObj := f.build(p.Seed)
+		for t := range p.Tasks {
+			ref[t] = ref[t][:0]
+			for _, o := range p.Tasks[t] {
+				ref[t] = append(ref[t], lateObj.ops[o.K](o.A))
+			}
+		}
+		run.Probe("expected-values-computed-after-the-scheduled-run")
+	}
 	for t := range p.Tasks {
 		if panics[t] != "" {
 			run.Violate(comp, "concurrent-call-panics", "task %d panicked under the schedule %v: %s", t, sw, panics[t])
@@ -604,7 +731,7 @@ func main() {
 			"goroutine scheduling of the caller tasks":                           "stub: seeded scheduler (verifsimrt), race-detector-invisible hand-off",
 			"expected results": "model: the same task alone on equal fresh objects",
 		},
-		ProbeNames:  []string{"preempt-right-after-shared-write"},
+		ProbeNames:  []string{"preempt-right-after-shared-write", "preempt-right-after-sync-operation"},
 		Directed:    directed,
 		Gen:         gen,
 		Exec:        exec,
